@@ -2,6 +2,7 @@ package fx
 
 import (
 	"fmt"
+	"github.com/taurusgroup/multi-party-sig/pkg/ecdsa"
 
 	"github.com/taurusgroup/multi-party-sig/pkg/party"
 	"github.com/taurusgroup/multi-party-sig/pkg/protocol"
@@ -212,6 +213,30 @@ func (m *CMPMat) Derive(idx uint32) (Mat, error) {
 	return out, nil
 }
 func (m *CMPMat) Sign(r *vk.Rand, S []party.ID, msg []byte, stale Mat, staleIDs map[party.ID]bool, opt Opt) ([]Outcome, *sim.Net, error) {
+	if m.Path == "presign+online" {
+		// the presignatures are made by the current epoch; a stale signer joins the online phase with the
+		// configuration it still holds
+		_, pouts, err := RunMulti(r, S, func(id party.ID) protocol.StartFunc { return cmp.Presign(m.Cfgs[id], S, nil) }, Opt{SessionID: opt.SessionID})
+		if err != nil {
+			return nil, nil, err
+		}
+		pre := map[party.ID]*ecdsa.PreSignature{}
+		for _, o := range pouts {
+			p, ok := o.Value.(*ecdsa.PreSignature)
+			if !ok {
+				return pouts, nil, nil // the offline phase did not complete: these outcomes are the session's
+			}
+			pre[o.ID] = p
+		}
+		n, outs, err := RunMulti(r, S, func(id party.ID) protocol.StartFunc {
+			c := m.Cfgs[id]
+			if stale != nil && staleIDs[id] {
+				c = stale.(*CMPMat).Cfgs[id]
+			}
+			return cmp.PresignOnline(c, pre[id], msg, nil)
+		}, opt)
+		return outs, n, err
+	}
 	n, outs, err := RunMulti(r, S, func(id party.ID) protocol.StartFunc {
 		c := m.Cfgs[id]
 		if stale != nil && staleIDs[id] {
